@@ -1,0 +1,29 @@
+//! Read-only observation hooks for the external verification harness.
+//!
+//! Compiled only with the `verif-hooks` feature.
+
+use crate::RaftLog;
+use crate::Types;
+
+impl<T: Types> RaftLog<T> {
+    /// Returns the eviction boundary and the `(log id, payload size)` of every
+    /// entry resident in the payload cache, read under the cache's own lock.
+    #[allow(clippy::type_complexity)]
+    pub fn verif_cache_resident(&self) -> (Option<T::LogId>, Vec<(T::LogId, u64)>) {
+        let cache = self.state_machine.payload_cache.read().unwrap();
+        let resident = cache
+            .cache
+            .iter()
+            .map(|(log_id, payload)| (log_id.clone(), T::payload_size(payload)))
+            .collect();
+        (cache.last_evictable().cloned(), resident)
+    }
+
+    /// Returns `(sent_seq, done_seq)` of the FlushWorker request queue.
+    ///
+    /// `sent_seq == done_seq` means the worker has processed everything sent
+    /// so far.
+    pub fn verif_worker_seq(&self) -> (u64, u64) {
+        self.wal.verif_worker_seq()
+    }
+}
